@@ -50,16 +50,15 @@ Definition rm_dotdot (s : str) : str := join_slash (norm_pinned (split_slash s))
 (** XIncludeLocation(href).prependPath(b): directory part of [b] followed by href.  prependPath first runs
     removeDotDotSlash on [b] *in place* (it casts the const away), i.e. on the value of the xml:base
     attribute node itself. *)
-Definition prepend_path (b : option str) (ref : str) : path :=
+Definition pp (fixn : bool) (b : path) (ref : path) : path :=
+  let r := dir (norm_pinned b) ++ ref in
+  if fixn then norm_pinned r else r            (* repaired (C20-F4): the result is normalised as well *)
+.
+Definition prepend_path (fixn : bool) (b : option str) (ref : str) : path :=
   match b with
-  | Some bs => dir (norm_pinned (split_slash bs)) ++ split_slash ref
+  | Some bs => pp fixn (split_slash bs) (split_slash ref)
   | None => split_slash ref
   end.
-
-(** encodings for which makeNewTranscoderFor succeeds are abstracted to: the attribute is absent or its
-    value does not start with '?' (the generator's convention for an unknown encoding name) *)
-Definition encoding_ok (enc : option str) : bool :=
-  match enc with Some (63 :: _) => false | _ => true end.
 
 (** Opening "<directory of the base>/<href>": the code hands this string to the file system *without*
     removing "seg/.." first (XIncludeLocation::prependPath does not normalise its result), so every directory
@@ -100,24 +99,30 @@ Definition doc_kids_ok (l : list node) : bool :=
 Section Model.
 Variable fs : fsys.
 Variable docuri : path.            (* parsedDocument->getBaseURI() *)
-Variable fixb : bool.              (* false = the code as it is; true = repaired root xml:base fix-up (finding C20-F2) *)
-Variable fixn : bool.              (* false = the code as it is; true = href normalised before opening (finding C20-F4) *)
+(** defect switches: true = repaired behaviour.  In /repo: C20-F2, C20-F4, C20-F1 are repaired (fix: commits),
+    C20-F7 is not. *)
+Variable fixb : bool.              (* C20-F2: own xml:base of an included root is prefixed with the directory of the href *)
+Variable fixn : bool.              (* C20-F4: directory of the base + href is normalised (before opening, and in xml:base values) *)
+Variable fixc : bool.              (* C20-F7: the fix-up test compares the base URI at the parent of xi:include, not its own *)
+Variable fixe : bool.              (* C20-F1: the parser leaves the content of xi:fallback alone until the fallback is used *)
 
 (** doXIncludeXMLFileDOM, lines 509-531: base URI fix-up of the included document element *)
-Definition fix_root_attrs (incbase target : path) (ib : option str) (href : str) (rat : list attr) : list attr :=
-  if path_eqb incbase target then rat
+Definition fix_root_attrs (base incbase target : path) (ib : option str) (href : str) (rat : list attr) : list attr :=
+  (* the code compares the base URI of the xi:include element itself (which its own xml:base may have moved)
+     with the URI of the included document; repaired: the base URI in force at its parent *)
+  if path_eqb (if fixc then base else incbase) target then rat
   else
     match get_base_attr rat with
-    | None => set_base_attr rat (join_slash (prepend_path ib href))
+    | None => set_base_attr rat (join_slash (prepend_path fixn ib href))
     | Some rb =>
-      if fixb then set_base_attr rat (join_slash (dir (prepend_path ib href) ++ split_slash rb))
-      else set_base_attr rat (join_slash (prepend_path ib rb))
+      if fixb then set_base_attr rat (join_slash (pp fixn (prepend_path fixn ib href) (split_slash rb)))
+      else set_base_attr rat (join_slash (prepend_path fixn ib rb))
     end.
-Fixpoint fix_root (incbase target : path) (ib : option str) (href : str) (top : list node) : list node :=
+Fixpoint fix_root (base incbase target : path) (ib : option str) (href : str) (top : list node) : list node :=
   match top with
   | [] => []
-  | Elem ns nm at_ k :: r => Elem ns nm (fix_root_attrs incbase target ib href at_) k :: r
-  | n :: r => n :: fix_root incbase target ib href r
+  | Elem ns nm at_ k :: r => Elem ns nm (fix_root_attrs base incbase target ib href at_) k :: r
+  | n :: r => n :: fix_root base incbase target ib href r
   end.
 
 (** doDOMNodeXInclude, lines 292-320: fix-up of the imported fallback children *)
@@ -127,7 +132,7 @@ Definition fix_fb_child (differ : bool) (ib : option str) (n : node) : node :=
     if differ then
       match get_base_attr at_ with
       | None => Elem ns nm (set_base_attr at_ (match ib with Some b => rm_dotdot b | None => [] end)) k
-      | Some cb => Elem ns nm (set_base_attr at_ (join_slash (prepend_path ib cb))) k
+      | Some cb => Elem ns nm (set_base_attr at_ (join_slash (prepend_path fixn ib cb))) k
       end
     else n
   | _ => n
@@ -163,7 +168,7 @@ Definition inc_resolve (hist : list path) (base : path) (at_ : list attr) (kids 
           if path_mem target hist then failed [E_CircularInclusionLoop]
           else if path_eqb target docuri then failed [E_CircularInclusionDocIncludesSelf]
           else match fetch fs fixn incbase (split_slash href) with
-               | Some (FDoc top) => (IR_repl (fix_root incbase target ib href top) (target :: hist), [])
+               | Some (FDoc top) => (IR_repl (fix_root base incbase target ib href top) (target :: hist), [])
                | _ => failed []
                end
         else if str_eqb parse s_text then                              (* doXIncludeTEXTFileDOM *)
@@ -194,11 +199,11 @@ Definition walk_list (rec : node -> list node * list err) (l : list node) : list
     returned as it is. *)
 Fixpoint walk (fuel : nat) (atdoc : bool) (hist : list path) (base : path) (n : node) {struct fuel}
   : list node * list err :=
-  match fuel with
-  | O => ([n], [E_Fuel])
-  | S f =>
-    match n with
-    | Elem ns nm at_ kids =>
+  match n with
+  | Elem ns nm at_ kids =>
+    match fuel with
+    | O => ([n], [E_Fuel])
+    | S f =>
       if is_include ns nm then
         match inc_resolve hist base at_ kids with
         | (IR_fail, e) => ([Elem ns nm (attrs_after at_ kids) kids], e)
@@ -211,8 +216,8 @@ Fixpoint walk (fuel : nat) (atdoc : bool) (hist : list path) (base : path) (n : 
       else
         let (ks, e) := walk_list (walk f false hist (elem_base base at_)) kids in
         ([Elem ns nm at_ ks], e)
-    | _ => ([n], [])
     end
+  | _ => ([n], [])
   end.
 
 (** AbstractDOMParser::endElement: while the parser builds the tree, every xi:include element is processed
@@ -222,7 +227,8 @@ Fixpoint top_walk (fuel : nat) (pns : N) (base : path) (n : node) {struct n} : l
   match n with
   | Elem ns nm at_ kids =>
     let nb := elem_base base at_ in
-    let kr := (fix go (l : list node) : list node * list err :=
+    let kr := if fixe && is_fallback ns nm then (kids, []) else
+              (fix go (l : list node) : list node * list err :=
                  match l with
                  | [] => ([], [])
                  | k :: r => let (a, ea) := top_walk fuel ns nb k in
@@ -245,23 +251,23 @@ End Model.
 Inductive doc_result := D_ok (top : list node) | D_hierarchy_exc.
 
 (** the document element [root] (with the comments [pre], [post] around it) *)
-Definition root_step (fs : fsys) (uri : path) (fixb fixn : bool) (fuel : nat) (eager : bool)
+Definition root_step (fs : fsys) (uri : path) (fixb fixn fixc fixe : bool) (fuel : nat) (eager : bool)
            (pre : list node) (root : node) (post : list node) : doc_result * list err :=
   match root with
   | Elem ns nm at_ kids =>
     if is_include ns nm then
       (* the descendants first when the parser drives the processing *)
-      let kr := if eager then walk_list (top_walk fs uri fixb fixn fuel ns (elem_base uri at_)) kids else (kids, []) in
-      match inc_resolve fs uri fixb fixn [] uri at_ (fst kr) with
+      let kr := if eager then walk_list (top_walk fs uri fixb fixn fixc fixe fuel ns (elem_base uri at_)) kids else (kids, []) in
+      match inc_resolve fs uri fixb fixn fixc [] uri at_ (fst kr) with
       | (IR_fail, e) => (D_ok (pre ++ [Elem ns nm (attrs_after at_ (fst kr)) (fst kr)] ++ post), snd kr ++ e)
       | (IR_repl nodes hist', e) =>
         if doc_kids_ok nodes then
-          let (r, e2) := walk_list (walk fs uri fixb fixn fuel true hist' uri) nodes in
+          let (r, e2) := walk_list (walk fs uri fixb fixn fixc fuel true hist' uri) nodes in
           (D_ok (pre ++ r ++ post), snd kr ++ e ++ e2)
         else (D_ok [], snd kr ++ e ++ [E_HierarchyExc])
       end
     else
-      let (r, e) := if eager then top_walk fs uri fixb fixn fuel NS_NONE uri root else walk fs uri fixb fixn fuel true [] uri root in
+      let (r, e) := if eager then top_walk fs uri fixb fixn fixc fixe fuel NS_NONE uri root else walk fs uri fixb fixn fixc fuel true [] uri root in
       (D_ok (pre ++ r ++ post), e)
   | _ => (D_ok (pre ++ [root] ++ post), [])
   end.
@@ -298,15 +304,15 @@ Definition finish (r : doc_result * list err) : doc_result * list err :=
   if exc then (D_hierarchy_exc, es) else r.
 
 (** XercesDOMParser / DOMLSParser with XInclude switched on *)
-Definition xi_parser (fs : fsys) (fixb fixn : bool) (uri : path) (top : list node) : doc_result * list err :=
+Definition xi_parser (fs : fsys) (fixb fixn fixc fixe : bool) (uri : path) (top : list node) : doc_result * list err :=
   match split_root [] top with
-  | Some (pre, root, post) => finish (root_step fs uri fixb fixn (enough_fuel fs top) true pre root post)
+  | Some (pre, root, post) => finish (root_step fs uri fixb fixn fixc fixe (enough_fuel fs top) true pre root post)
   | None => (D_ok top, [])
   end.
 
 (** XIncludeDOMDocumentProcessor::doXIncludeDOMProcess on the parsed (unexpanded) document *)
-Definition xi_docproc (fs : fsys) (fixb fixn : bool) (uri : path) (top : list node) : doc_result * list err :=
+Definition xi_docproc (fs : fsys) (fixb fixn fixc : bool) (uri : path) (top : list node) : doc_result * list err :=
   match split_root [] top with
-  | Some (pre, root, post) => finish (root_step fs uri fixb fixn (enough_fuel fs top) false pre root post)
+  | Some (pre, root, post) => finish (root_step fs uri fixb fixn fixc true (enough_fuel fs top) false pre root post)
   | None => (D_ok top, [])
   end.
